@@ -272,7 +272,13 @@ func pemOf(roots []*x509.Certificate) []byte {
 }
 
 var entries = []string{"verify.Endorsement", "verify.EndorsementProto", "closure/blob", "closure/opts.Endorsement", "closure/getter",
-	"SevValidate/opts", "SevValidate/extras", "SevValidate/getter", "TdxValidate/opts", "cli/verify", "cli/sev-validate", "cli/tdx-validate"}
+	"SevValidate/opts", "SevValidate/extras", "SevValidate/getter", "TdxValidate/opts", "cli/verify", "cli/sev-validate", "cli/tdx-validate",
+	// two sources at once: the caller's endorsement (the one under test, which takes precedence and
+	// from which SevValidate derives its policy) next to a genuine one carried by the attestation
+	"closure/opts+genuine-blob", "SevValidate/opts+genuine-extras", "cli/sev-validate+genuine-extras"}
+
+// genuineFor returns a genuine endorsement (same PKI world as e's) to accompany the one under test.
+var genuineBlob func() []byte
 
 // run executes one entry point; returns accepted, error text. pan != nil when the code panicked.
 func run(entry string, e *epb.VMLaunchEndorsement, pool *x509.CertPool, roots []*x509.Certificate, now time.Time, snpOptKind int) (accepted bool, errText string, pan any) {
@@ -305,6 +311,11 @@ func run(entry string, e *epb.VMLaunchEndorsement, pool *x509.CertPool, roots []
 	case "closure/opts.Endorsement":
 		f := verify.SNPValidateFunc(&verify.Options{RootsOfTrust: pool, Now: now, SNP: snpOpts, Endorsement: e})
 		err = f(attest.SnpAttestation(snpMeas, nil), nil)
+	case "closure/opts+genuine-blob":
+		f := verify.SNPValidateFunc(&verify.Options{RootsOfTrust: pool, Now: now, SNP: snpOpts, Endorsement: e})
+		err = f(attest.SnpAttestation(snpMeas, nil), genuineBlob())
+	case "SevValidate/opts+genuine-extras":
+		err = gcetcbendorsement.SevValidate(ctx, attest.SnpAttestation(snpMeas, map[string][]byte{sev.GCEFwCertGUID: genuineBlob()}), &gcetcbendorsement.SevValidateOptions{Endorsement: e, RootsOfTrust: pool, Now: now})
 	case "closure/getter":
 		f := verify.SNPValidateFunc(&verify.Options{RootsOfTrust: pool, Now: now, SNP: snpOpts, Getter: &recGetter{body: map[string][]byte{url: eb}}})
 		err = f(attest.SnpAttestation(snpMeas, nil), nil)
@@ -316,7 +327,7 @@ func run(entry string, e *epb.VMLaunchEndorsement, pool *x509.CertPool, roots []
 		err = gcetcbendorsement.SevValidate(ctx, attest.SnpAttestation(snpMeas, nil), &gcetcbendorsement.SevValidateOptions{RootsOfTrust: pool, Now: now, Getter: &recGetter{body: map[string][]byte{url: eb}}})
 	case "TdxValidate/opts":
 		err = gcetcbendorsement.TdxValidate(ctx, attest.TdxRawQuote(tdxMrtd), &gcetcbendorsement.TdxValidateOptions{Endorsement: e, RootsOfTrust: pool, Now: now})
-	case "cli/verify", "cli/sev-validate", "cli/tdx-validate":
+	case "cli/verify", "cli/sev-validate", "cli/tdx-validate", "cli/sev-validate+genuine-extras":
 		files := map[string][]byte{"e.binarypb": eb, "roots.pem": pemOf(roots)}
 		var args []string
 		switch entry {
@@ -324,6 +335,13 @@ func run(entry string, e *epb.VMLaunchEndorsement, pool *x509.CertPool, roots []
 			args = []string{"verify", "e.binarypb", "--root_cert", "roots.pem"}
 		case "cli/sev-validate":
 			fs, ferr := attest.SnpFormats(attest.SnpAttestation(snpMeas, nil))
+			if ferr != nil {
+				panic("harness: " + ferr.Error())
+			}
+			files["att.bin"] = fs["tpm"]
+			args = []string{"sev", "validate", "att.bin", "--endorsement", "e.binarypb", "--root_cert", "roots.pem"}
+		case "cli/sev-validate+genuine-extras":
+			fs, ferr := attest.SnpFormats(attest.SnpAttestation(snpMeas, map[string][]byte{sev.GCEFwCertGUID: genuineBlob()}))
 			if ferr != nil {
 				panic("harness: " + ferr.Error())
 			}
@@ -384,6 +402,10 @@ func checkCase(t ev.TB, name, entry string, m mutated, rootKind, timeClass strin
 		roots, pool = rootSet(rootKind, w, leaf)
 	}
 	now := pickTime(timeClass, leaf)
+	genuineBlob = func() []byte {
+		b, _ := proto.Marshal(pki.Endorse(baseGolden(), w.sign.cert.Raw, w.sign.key))
+		return b
+	}
 	accepted, errText, pan := run(entry, m.e, pool, roots, now, snpOptKind)
 	if pan != nil {
 		// totality is C07's business; record and do not judge here
